@@ -179,7 +179,7 @@ End Redirect.
 Example redirect_hyps_sat :
   let enc_cert := fun n : nat => PInt (Z.of_nat n) in
   let c := Build_config "idp" (fun _ _ => []) (Some true) None None true (fun _ => [1; 2]%nat) (fun _ => true) in
-  let b := Build_body AuthnRequest "2.0" None 0 (Some " https://sp.example.org/sp.xml ") true true 0 in
+  let b := Build_body AuthnRequest "2.0" None 0 ZUtc (Some " https://sp.example.org/sp.xml ") true true 0 in
   let sa := "http://www.w3.org/2001/04/xmldsig-more#rsa-sha256" in
   let dverify := fun (ct : nat) (_ : nat * option string * string) (_ : nat) => Nat.eqb ct 2 in
   let md := fun _ : pyval => PList (map (enc_pair nat enc_cert) [1; 2]%nat) in
@@ -242,7 +242,7 @@ End SignedMessage.
 
 Example signed_message_hyps_sat :
   let c := Build_config "idp" (fun _ _ => []) (Some true) None None true (fun _ => [1%nat]) (fun _ => true) in
-  let b := Build_body AuthnRequest "2.0" None 0 (Some "https://sp.example.org/sp.xml") true true 0 in
+  let b := Build_body AuthnRequest "2.0" None 0 ZUtc (Some "https://sp.example.org/sp.xml") true true 0 in
   let ev := fun (ct : nat) (_ : body) (s : nat) => Nat.eqb ct s in
   let e := Some (Build_envsig 1%nat true ([] : list nat)) in
   let M := enc_message b (enc_sig nat nat e) in
@@ -476,7 +476,7 @@ End Loads.
 
 Example loads_hyps_sat :
   let c := Build_config "idp" (fun _ _ => []) (Some true) None None true (fun _ => [1%nat]) (fun _ => true) in
-  let b := Build_body AuthnRequest "2.0" None 0 (Some "https://sp.example.org/sp.xml") true true 0 in
+  let b := Build_body AuthnRequest "2.0" None 0 ZUtc (Some "https://sp.example.org/sp.xml") true true 0 in
   let ev := fun (ct : nat) (_ : body) (s : nat) => Nat.eqb ct s in
   let dv := fun (ct : nat) (_ : nat * option string * string) (s : nat) => Nat.eqb ct s in
   let enc_doc := fun n : nat => PInt (Z.of_nat n) in
